@@ -69,6 +69,105 @@ type streams struct {
 	modes  *collector[electricpb.PullModesChange]
 	active *collector[electricpb.PullActiveModeChange]
 	view   map[string]*traits.ElectricMode // the subscriber's folded view of the modes
+	// a second subscriber that joins both streams later, NOT updates-only: it is seeded with the stored modes and
+	// the active mode, then follows the same events
+	lateModes  *collector[electricpb.PullModesChange]
+	lateActive *collector[electricpb.PullActiveModeChange]
+	lateCancel context.CancelFunc
+}
+
+// joinLate subscribes the late subscriber and checks what it is seeded with against the model's listing and active
+// mode at this moment (plain reads of the real model are the oracle).
+func (w *world) joinLate(m *lib.Monitor, input any) {
+	st := w.streams
+	if st == nil || st.lateModes != nil || m == nil {
+		return
+	}
+	ctx, cancel := context.WithCancel(context.Background())
+	st.lateCancel = cancel
+	st.lateModes = newCollector[electricpb.PullModesChange]()
+	st.lateActive = newCollector[electricpb.PullActiveModeChange]()
+	now := w.snapshot()
+	mch := w.model.PullModes(ctx, resource.WithBackpressure(true))
+	ach := w.model.PullActiveMode(ctx, resource.WithBackpressure(true))
+	lm, la := st.lateModes, st.lateActive
+	go func() {
+		for e := range mch {
+			lm.push(e)
+		}
+	}()
+	go func() {
+		for e := range ach {
+			la.push(e)
+		}
+	}()
+	seeds, ok := st.lateModes.take(len(now.Modes), eventTimeout())
+	var got []string
+	for _, e := range seeds {
+		got = append(got, showModeEvent(e))
+	}
+	var want []string
+	for _, x := range now.Modes {
+		want = append(want, "A"+showMode(x))
+	}
+	if !ok {
+		missingEvents.Add(1)
+		got = []string{"MISSING"}
+	}
+	if strings.Join(got, ";") != strings.Join(want, ";") {
+		m.Violate("C19/pull/late-seed-not-the-modes", "a PullModes subscriber that joined later was not seeded with the stored modes (one ADD each, in listing order)", input, strings.Join(want, ";"), strings.Join(got, ";"))
+	}
+	as, ok := st.lateActive.take(1, eventTimeout())
+	gotA := "MISSING"
+	if ok {
+		gotA = showMode(as[0].ActiveMode)
+	} else {
+		missingEvents.Add(1)
+	}
+	if gotA != showMode(now.Active) {
+		m.Violate("C19/pull/late-seed-not-the-active-mode", "a PullActiveMode subscriber that joined later was not seeded with the active mode", input, showMode(now.Active), gotA)
+	}
+}
+
+// lateEvents: what the late subscriber must have been sent for the last operation - the PullModes events of the
+// first subscriber, and the active mode when a Set succeeded with a value that differs from the one it saw last.
+func (w *world) lateEvents(m *lib.Monitor, input any, o op, before, after snap, err error, ms []string) {
+	st := w.streams
+	if st.lateModes == nil {
+		return
+	}
+	if m == nil {
+		return // not judged any more (the collectors keep draining, nothing blocks)
+	}
+	evs, ok := st.lateModes.take(len(ms), eventTimeout())
+	var got []string
+	for _, e := range evs {
+		got = append(got, showModeEvent(e))
+	}
+	if !ok {
+		missingEvents.Add(1)
+		got = []string{"MISSING"}
+	}
+	if strings.Join(got, ";") != strings.Join(ms, ";") {
+		m.Violate("C19/pull/late-subscriber-events-differ/"+o.Kind, "a PullModes subscriber that joined later was not sent the events the first subscriber was sent", input, strings.Join(ms, ";"), strings.Join(got, ";"))
+	}
+	wantActive := 0
+	switch o.Kind {
+	case "setactive", "change", "clear", "s.change", "s.clear":
+		if err == nil && showMode(before.Active) != showMode(after.Active) {
+			wantActive = 1
+		}
+	}
+	aevs, ok := st.lateActive.take(wantActive, eventTimeout())
+	if !ok {
+		missingEvents.Add(1)
+		m.Violate("C19/pull/late-active-event-missing/"+o.Kind, "the active mode changed but the PullActiveMode subscriber that joined later was sent nothing", input, showMode(after.Active), "none within 10s")
+	}
+	for _, e := range aevs {
+		if showMode(e.ActiveMode) != showMode(after.Active) {
+			m.Violate("C19/pull/late-active-event-not-the-active-mode/"+o.Kind, "the PullActiveMode event of the subscriber that joined later is not the model's active mode", input, showMode(after.Active), showMode(e.ActiveMode))
+		}
+	}
 }
 
 func (w *world) subscribe(cfg config) {
@@ -198,5 +297,6 @@ func (w *world) collectEvents(m *lib.Monitor, input any, o op, before, after sna
 			m.Violate("C19/pull/view-differs-from-modes/"+o.Kind, "folding the PullModes events does not give the model's mode list", input, strings.Join(modeStrings(after), ";"), strings.Join(vs, ";"))
 		}
 	}
+	w.lateEvents(m, input, o, before, after, err, ms)
 	return fmt.Sprintf(" events=[%s] active-events=[%s]", strings.Join(ms, ";"), strings.Join(as, ";"))
 }
